@@ -58,10 +58,10 @@ RULE = {
     "C02": SCHED + "Programs as C01. Oracle: no deadlock (no enabled thread while threads are unfinished) in any explored schedule, and after all workers are "
            "joined lockWrite/unlockWrite/lockRead x2/unlockRead x2 on the main thread never parks. Non-trivial = an admitted (signalled) waiter was slow to wake: "
            "control went to another thread between its wake-up and its return from lock*().",
-    "C03": SCHED + "Programs as C01 plus an ordering shape (a holder, then requests issued one by one, each only after the previous requester is parked). "
+    "C03": SCHED + "Programs as C01 plus an ordering shape (a holder, then requests issued one by one, each only after the previous requester is parked; also with 10-14 threads so that 8+ queue entries wait at once). "
            "Oracle over the event log: for requests X, Y with PARK(X) < CALL(Y), not both reads: RET(X) < RET(Y). Non-trivial = at least one such ordered pair "
            "and two threads parked at once.",
-    "C06": "rapidcheck generates histories (<=40 ops quick, <=80 thorough) on a SubjectRouter or ConcurrentSubjectRouter (one thread): subscribe (several per key allowed, plain and "
+    "C06": "rapidcheck generates histories (<=40 ops quick, <=80 thorough) on a SubjectRouter or ConcurrentSubjectRouter (one thread): (every second notify passes its pattern in one long-lived, re-assigned RoutingKey variable, so level objects keep their addresses while their content changes) subscribe (several per key allowed, plain and "
            "SelfView callables) under concrete keys of depth 0-3 over the names {a, b, ab, a.b, .*, ''}, unsubscribe, self-invalidation, shrink, and notify with patterns built per level "
            "from a string or one of ten regexes (.*, .+, a|b, [ab]+, a.*, a\\.b, ab?, b, '', \\.\\*); one argument signature per case from {(), int, const std::string&, std::string by value, "
            "(int, const std::string&), by-value class that records moves}. Oracle: own level-by-level matcher (one obviously-right predicate per regex, never std::regex); every expected "
@@ -74,13 +74,13 @@ RULE = {
            "full-depth wildcard shrink leaves no dead key. After every op: exists() on every concrete key of the finite universe equals the model's stored set, stored keys are prefix-closed, "
            "depth() == 1 + longest stored key; exists(pattern) <=> some stored key matches level by level (own matcher). Non-trivial = a shrink that removed >=1 key while a sibling key "
            "stayed. Distinct = distinct case text.",
-    "C17": "rapidcheck generates byte strings (0-4 KiB, biased to NUL, 0xFF, CR, LF, 0x1A; at low weight repeated up to 4 MiB quick / 32 MiB thorough), a split into 1-8 chunks written "
+    "C17": "rapidcheck generates byte strings (0-4 KiB, biased to NUL, 0xFF, CR, LF, 0x1A; at low weight repeated up to 4 MiB quick / 32 MiB thorough), (in ~46% of the cases ONE File object lives through the whole history: reads the pre-existing file, is re-opened for writing, re-opened for reading) a split into 1-8 chunks written "
            "through the three write overloads (incl. elementSize 2/4), an open mode (Write/WriteText truncating, Append/AppendText extending pre-existing content) and a read-phase "
            "sequence of seek/tell/size/read(buf,size,count)/read()/readStr()/reopen in Read or ReadText; plus error cases (missing file, directory). Oracle: byte + position model; "
            "read()/readStr() equal the whole content whatever the position; read(buf) returns the item count and bytes the model predicts; size() == model length == "
            "std::filesystem::file_size with tell() unchanged; write returns the element count; Exceptions carry NotFound / NotFile; independent std::ifstream re-read. "
            "Non-trivial = content contains 0xFF or CRLF or exceeds 4096 bytes and the read phase has a size() at a non-zero position (error cases count as non-trivial). Distinct = distinct case text.",
-    "C18": "rapidcheck generates (1) directory trees (depth <=4, <=40 nodes quick / 80 thorough, empty dirs, files of 0 B..64 KiB (2 MiB thorough), names with spaces, dots, leading dots, '...', "
+    "C18": "rapidcheck generates (1) directory trees (depth <=4, <=40 nodes quick / 80 thorough, plus in a tenth of the tree cases one chain of 28-50 (thorough 177) nested directories compared under the same descriptor limit, empty dirs, files of 0 B..64 KiB (2 MiB thorough), names with spaces, dots, leading dots, '...', "
            "UTF-8 and non-UTF-8 bytes, backslashes) built with std::filesystem in a temporary directory; (2) path strings (d from segments/separators, absolute/relative, 0-2 trailing "
            "separators; separator-free names n) and odd strings; (3) strictly nested DirectoryVisitor stacks over generated directories (existing, missing, '.', '..', relative, empty). "
            "Oracle: (1) exists/isFile/isDirectory/size/listChildren vs std::filesystem for every node (absolute, relative, trailing separator) and missing paths, three passes under a tight "
@@ -111,7 +111,7 @@ RULE = {
            "depth; then 1-4 top-level notifies. Oracle: reference simulation of the rounds as the property words them (membership fixed at entry, removed-before-turn skipped, "
            "muted/invalid not invoked, invalid leave after their turn, newcomers first run in the next round); call logs (observer, depth, argument) must be equal; ASan decides "
            "memory safety. Non-trivial = a callback removed a not-yet-called member or itself, or subscribed during a round that was followed by another notify. Distinct = distinct case text.",
-    "C16": "rapidcheck generates histories (<=60 ops quick, <=120 thorough) on Observable<long>, Observable<double, NearEq(eps in {1e-9,0.01,0.5,2.5})> and Observable<std::string>: "
+    "C16": "rapidcheck generates histories (<=60 ops quick, <=120 thorough) on Observable<long>, Observable<double, NearEq(eps in {1e-9,0.01,0.5,2.5})> and Observable<std::string>: (also Observable<int>, <unsigned char> and <float, NearEq>; a clamping subscriber that writes back into the Observable from its callback - then every live subscriber's LAST received value must equal value()) "
            "= (lvalue, temporary, moved), =current value, +=, -=, *=, /=, ++x, x++, --x, x--, apply(set|add|no-op), subscribe (T&, const T&, by-value subscribers), unsubscribe. "
            "Oracle: model value computed with the same arithmetic; per op and live subscriber exactly one notification carrying the post-op value iff !eq(old,new) (always for ++/--), "
            "none otherwise; Eq-equal assignment leaves value() bit-identical; pre/post increment return values. Non-trivial = a history with a changing and a non-changing op while "
@@ -125,7 +125,7 @@ RULE = {
            "interleaving); after stop(): getThreadCount()==0, every worker thread exited, no task running, every submitted task destroyed; a later start() runs its task; "
            "getThreadCount() <= max after every op and distinct worker threads per epoch <= max. Non-trivial = stop() was called while a worker was alive and not parked "
            "(about to wait, waking up, or running).",
-    "C20": SCHED + "Cases: callable kind (function pointer | small closure | 256-byte closure | Runnable) x 0-2 lvalue arguments x start()/constructor, started from a helper "
+    "C20": SCHED + "Cases: callable kind (function pointer | small closure | 256-byte closure | Runnable) x 0-2 lvalue arguments x start()/constructor, optionally with the first 1-3 pthread_create calls failing with EAGAIN (injected; the caller retries start()), started from a helper "
            "frame that returns, after which the parent overwrites 4 KiB of stack, polls isFinished() and joins. Oracle: liveness canary (poisoned in the destructor) intact "
            "when invoked + ASan stack-use-after-return; invoked exactly once; isFinished() true only after the callable returned; join() only after that; Runnable run once "
            "then destroyed once; no copy of the callable outlives the Thread. Non-trivial = the new thread's first instruction ran after start() had returned.",
@@ -144,7 +144,7 @@ RULE = {
     "C12": SCHED + "Programs: writer-free (2-6 reader threads, incl. nested reads), free mix with few writers, rendezvous shape (a writer holds until all k>=2 readers "
            "are parked, then unlocks; the readers meet at a barrier inside the read section). Oracle: a read request during which no write request was outstanding "
            "never parks; the rendezvous never deadlocks. Non-trivial = >=2 reader threads inside the lock simultaneously (rendezvous: barrier completed).",
-    "C04": "rapidcheck generates operation histories (<=120 ops quick, <=400 thorough) over a pool of 4 RingBuffers of one element type "
+    "C04": "rapidcheck generates operation histories (<=120 ops quick, <=400 thorough) over a pool of 4 RingBuffers of one element type (pushes/emplaces may take their argument by reference to an element of the same buffer, incl. the one an overwriting push discards) "
            "(int | POD struct | lifetime-tracked class), both overwrite modes; operands are decoded interpretively so every op is valid. "
            "Oracle: std::deque + capacity model compared through the public API after every op. Non-trivial = a resize, copy or move executed "
            "on a buffer whose head index != 0 or whose contents wrap, or a pop/resize after an overwrite on the same buffer "
